@@ -66,6 +66,9 @@ type BDecl struct {
 	Rel     string `json:"rel,omitempty"`
 	Summary string `json:"summary,omitempty"`
 	File    string `json:"file,omitempty"`
+	// Canon (kind r, a package that carries a spelling): the finder reports the address PARSED from the printed
+	// (percent-encoded) form, not built from the spelled URL
+	Canon bool `json:"canon,omitempty"`
 }
 
 type BDep struct {
@@ -81,6 +84,13 @@ type BOp struct {
 	Sub     string `json:"sub"`
 	Allowed string `json:"allowed,omitempty"`
 	Finder  int    `json:"finder"`
+	// Canon (kind ar, a package that carries a spelling): the address is PARSED from the printed
+	// (percent-encoded) form, not built from the spelled URL: the same package reaches the builder in both
+	// spellings (seed C13-h)
+	Canon bool `json:"canon,omitempty"`
+	// Text (kind af): the final registry source is PARSED from its text "pkg@version[//sub]"
+	// (ParseFinalRegistrySource for finder 0, ParseFinalSource otherwise), not built with Versioned (seed C17-h)
+	Text bool `json:"text,omitempty"`
 }
 
 type BWorld struct {
@@ -122,6 +132,47 @@ func (w *BWorld) remote(pkg, sub string) sourceaddrs.RemoteSource {
 		}
 	}
 	return mustRemote(pkg, sub)
+}
+
+// remoteAs: remote(pkg, sub), or - canon - the value parsed from the printed form whatever the package's spelling
+func (w *BWorld) remoteAs(pkg, sub string, canon bool) sourceaddrs.RemoteSource {
+	if canon {
+		return mustRemote(pkg, sub)
+	}
+	return w.remote(pkg, sub)
+}
+
+// finalText: the text of the final registry source of an af operation
+func finalText(op BOp) string {
+	s := op.Pkg + "@" + op.Allowed
+	if op.Sub != "" {
+		s += "//" + op.Sub
+	}
+	return s
+}
+
+// finalOf: the final registry source an af operation adds: built with Versioned, or parsed from its text
+func finalOf(op BOp) sourceaddrs.RegistrySourceFinal {
+	if !op.Text {
+		return mustRegistry(op.Pkg, op.Sub).Versioned(versions.MustParseVersion(op.Allowed))
+	}
+	s := finalText(op)
+	if op.Finder == 0 {
+		f, err := sourceaddrs.ParseFinalRegistrySource(s)
+		if err != nil {
+			panic(fmt.Sprintf("final registry address %q does not parse: %v", s, err))
+		}
+		return f
+	}
+	f, err := sourceaddrs.ParseFinalSource(s)
+	if err != nil {
+		panic(fmt.Sprintf("final address %q does not parse: %v", s, err))
+	}
+	rf, ok := f.(sourceaddrs.RegistrySourceFinal)
+	if !ok {
+		panic(fmt.Sprintf("final address %q does not parse as a final registry source (%T)", s, f))
+	}
+	return rf
 }
 
 // allowedSet builds the versions.Set for the DSL: all | released | only:V | atleast:V | olderthan:V | range:A:B | sel:A+B
@@ -592,7 +643,7 @@ func (f *scriptFinder) FindDependencies(fsys fs.FS, subPath string, deps *source
 			for _, dc := range d.Decls {
 				switch dc.Kind {
 				case "r":
-					deps.AddRemoteSource(e.w.remote(dc.Pkg, dc.Sub), e.finders[dc.Finder])
+					deps.AddRemoteSource(e.w.remoteAs(dc.Pkg, dc.Sub, dc.Canon), e.finders[dc.Finder])
 				case "g":
 					deps.AddRegistrySource(mustRegistry(dc.Pkg, dc.Sub), allowedSet(dc.Allowed), e.finders[dc.Finder])
 				case "l":
@@ -762,11 +813,11 @@ func runBuild(w *BWorld, ops []BOp, target string, env *bEnv) *bRun {
 				var ds sourcebundle.Diagnostics
 				switch op.Kind {
 				case "ar":
-					ds = b.AddRemoteSource(ctx, w.remote(op.Pkg, op.Sub), env.finders[op.Finder])
+					ds = b.AddRemoteSource(ctx, w.remoteAs(op.Pkg, op.Sub, op.Canon), env.finders[op.Finder])
 				case "ag":
 					ds = b.AddRegistrySource(ctx, mustRegistry(op.Pkg, op.Sub), allowedSet(op.Allowed), env.finders[op.Finder])
 				case "af":
-					ds = b.AddFinalRegistrySource(ctx, mustRegistry(op.Pkg, op.Sub).Versioned(versions.MustParseVersion(op.Allowed)), env.finders[op.Finder])
+					ds = b.AddFinalRegistrySource(ctx, finalOf(op), env.finders[op.Finder])
 				}
 				run.results = append(run.results, canonDiags(w, ds))
 				run.diagsRaw = append(run.diagsRaw, ds)
